@@ -1022,6 +1022,43 @@ class LcGen(GovGen):
             self.observe(t)
             self.idx[(f, t)] = i + 1
 
+    def scripted_unpaid_concluding_vote(self):
+        """seeding round 28 (`C16-failed-governance-transaction-feeds-the-service-cache`): a service is frozen by an approved proposal,
+        its activation is proposed and gets two approvals, and the CONCLUDING third approval is cast by an administrator who cannot pay
+        the fee: the vote is processed — the service manager posts the service's new status — and then reverted (FAILED).  The stored
+        service stays `activating`; a node that fed its service cache from the failed transaction's events would take it for available.
+        The service is then probed as source and as destination, on the running node and after a restart."""
+        r = self.r
+        svc = r.choice(["c1:s1", "c2:s1", "c1:s2"])
+        c = svc.split(":")[0]
+        self.submit(r.choice(["adm0", "adm1"]), f"service FreezeService s:{svc} s:reason", "service-freeze", "service", svc)
+        ref, kind, mod, obj = self.props[-1]
+        self.vote_all(ref, mod, obj, "approve")
+        self.submit(r.choice(["adm0", "adm1"]), f"service ActivateService s:{svc} s:reason", "service-activate", "service", svc)
+        ref, kind, mod, obj = self.props[-1]
+        # adm2 is drained to below one fee, then casts the third approval
+        self.ops.append("q bal adm2")
+        self.ops.append("block xfer adm2 u0 all-21001")      # the transfer's own fee is 21000: what is left pays for nothing
+        self.ops.append("q bal adm2")
+        for v in ["adm0", "adm1", "adm2"]:
+            self.ops.append(f"block bvm {v} gov Vote s:{ref} s:approve s:r")
+            self.ops.append(f"q prop {ref}")
+            self.ops.append(f"q obj {mod} {obj}")
+        other = "c2:s3" if c != "c2" else "c4:s1"
+        for rep in range(2):
+            for f, t in ((svc, other), (other, svc)):
+                i = self.idx.get((f, t), 1)
+                self.observe(f)
+                self.observe(t)
+                self.ops.append(f"block ibtp ca{f[1]} {f} {t} {i} req 0 - ok")
+                self.observe(f)
+                self.observe(t)
+                self.ops.append(f"q status 1356:{f}-1356:{t}-{i}")
+                self.idx[(f, t)] = i + 1
+            if rep == 0:
+                self.ops.append("restart")
+        self.tags.add("unpaid-concluding-vote")
+
     def scripted_cascade(self):
         """an appchain-wide cascade after one of the chain's services took a status of its own: a service of a chain with
         several services is logged out (or frozen), then the chain goes through a round trip that rewrites all its services
@@ -1381,7 +1418,7 @@ def gen_c16(rng, n, tier):
     # came up in none of the 184 evaluations of a quick run)
     forced = [(0.92, {"warm": True, "rename": True, "ballot": "approve"}), (0.92, {"warm": True, "rename": True, "ballot": "reject"}),
               (0.92, {"warm": False, "rename": True, "ballot": "approve"}), (0.92, {"rename": False}),
-              (0.1, {}), (0.3, {}), (0.5, {}), (0.65, {}), (0.75, {}), (0.85, {}), (0.97, {})]
+              (0.1, {}), (0.3, {}), (0.5, {}), (0.65, {}), (0.75, {}), (0.85, {}), (0.97, {}), (2.0, {})]
     for hi in range(n):
         r = _r.Random(rng.getrandbits(64))
         g = LcGen(r)
@@ -1397,7 +1434,9 @@ def gen_c16(rng, n, tier):
         if hi < len(forced):
             k0, g.force = forced[hi]
             g.tags.add("forced-scenario")
-        if k0 < 0.25:
+        if k0 >= 2.0:
+            g.scripted_unpaid_concluding_vote()
+        elif k0 < 0.25:
             for _ in range(r.randint(0, 2)):
                 g.govern()
             g.scripted_overlap()
@@ -1440,12 +1479,22 @@ def mon_c16(h, obs):
     chain_frozen = {}  # appchain -> an approved freeze / logout took effect and no activation has been approved since
     blacklist = set(BLACKLIST)   # (source, destination) pairs blocked by the destination; follows successful permission updates
     blocks_since = {}  # (kind,id) -> number of block ops since its last observation
+    rejected_update = set()   # services whose UPDATE proposal was read back rejected / withdrawn and that were not seen unusable since
     steps = list(zip(h.ops, obs))
+
+    def usable_fp(s_id):
+        # the recorded finding (known_findings.json): a rejected update restores the status its proposal remembers and does not pause
+        # the service again under an unavailable appchain — its own fingerprint, so that it swallows nothing else
+        return "C16/service-usable-on-unusable-appchain" + ("/after-rejected-update" if s_id in rejected_update else "")
     for i, (op, o) in enumerate(steps):
         ws = op.split()
         if ws[0] in ("block", "restart"):
             for k in blocks_since:
                 blocks_since[k] += 1
+        if ws[0] == "q" and ws[1] == "prop" and o:
+            mp = re.search(r"status=(\S+) .*typ=service_mgr ev=update obj=(\S+)", o)
+            if mp and mp.group(1) == "reject":
+                rejected_update.add(mp.group(2))
         if ws[0] == "q" and ws[1] == "obj" and ws[2] in ("appchain", "service", "role", "node", "rule"):
             kind, oid = ws[2], ws[3]
             m = re.search(r"status=(\S+)", o)
@@ -1486,6 +1535,8 @@ def mon_c16(h, obs):
                                     f"{kind} {oid} went {old} -> {new}, which is no transition of its state machine", detail=steps[i - 1][0] if i else op))
             status[key] = new
             blocks_since[key] = 0
+            if kind == "service" and new not in set(avail.get("service", ["available"])):
+                rejected_update.discard(oid)
             if kind == "appchain":
                 if new in ("frozen", "forbidden"):
                     chain_frozen[oid] = True
@@ -1503,7 +1554,7 @@ def mon_c16(h, obs):
                         # logouting after frozen): the approved freeze still stands
                         if (ca in ("frozen", "forbidden") or (chain_frozen.get(c_id) and ca not in set(avail.get("appchain", ["available"])))) \
                                 and ss in set(avail.get("service", ["available"])):
-                            hits.append(Hit("C16/service-usable-on-unusable-appchain", f"appchain {c_id} is {ca} but its service {s_id} is {ss}", detail=op))
+                            hits.append(Hit(usable_fp(s_id), f"appchain {c_id} is {ca} but its service {s_id} is {ss}", detail=op))
         if ws[0] == "block" and len(ws) > 8 and ws[1] == "bvm" and ws[3] == "service" and ws[4] == "UpdateService" and " | " not in op:
             m = mon_exec.BLK.match(o)
             if m and m.group(2) and m.group(2).split()[0].startswith("S:"):
@@ -1549,7 +1600,7 @@ def mon_c16(h, obs):
                 ca = status.get(("appchain", svc.split(":")[0]))
                 ss = status.get(("service", svc))
                 if ca is not None and ss is not None and ca not in aa and (ca in ("frozen", "forbidden") or chain_frozen.get(svc.split(":")[0])) and ss in sa:
-                    hits.append(Hit("C16/service-usable-on-unusable-appchain", f"appchain {svc.split(':')[0]} is {ca} but its service {svc} is {ss}", detail=op))
+                    hits.append(Hit(usable_fp(svc), f"appchain {svc.split(':')[0]} is {ca} but its service {svc} is {ss}", detail=op))
     return hits
 
 
